@@ -230,7 +230,64 @@ class UnitResult:
         self.requested = 0
 
 
+def run_fuzz_unit(work, pid, uidx, unit, tier):
+    """Native go fuzzing of an exported decoder from the external module harness/ext (thorough tier).
+    A crasher is converted into a replay case of the in-package unit named by unit['as_test']."""
+    res = UnitResult()
+    tcfg = unit[tier]
+    ext = os.path.join(VERIF, "harness", "ext")
+    ov = dict(ensure_stubs())
+    common = os.path.join(VERIF, "harness", "common")
+    for fn in sorted(os.listdir(common)):
+        if fn.endswith(".go"):
+            ov[os.path.join(ext, "vh", fn)] = os.path.join(common, fn)
+    overlay = os.path.join(work, "overlay-ext.json")
+    json.dump({"Replace": ov}, open(overlay, "w"))
+    modfile = os.path.join(work, "ext.mod")
+    nodemod = open(os.path.join(REPO, "node", "go.mod")).read()
+    req = nodemod[nodemod.index("require ("):]
+    with open(modfile, "w") as f:
+        f.write("module verif/ext\n\ngo 1.19\n\nrequire github.com/alephium/wormhole-fork/node v0.0.0\nrequire pgregory.net/rapid v1.3.0\n\nreplace github.com/alephium/wormhole-fork/node => %s\n\n%s" % (os.path.join(REPO, "node"), req))
+    shutil.copy(os.path.join(REPO, "node", "go.sum"), os.path.join(work, "ext.sum"))
+    corpus = os.path.join(ext, "testdata", "fuzz", unit["fuzz"])
+    before = set(os.listdir(corpus)) if os.path.isdir(corpus) else set()
+    cache = os.path.join(work, "fuzzcache")
+    cmd = ["go", "test", "-vet=off", "-tags", "verif", "-overlay", overlay, "-modfile", modfile, "-run", "^$", "-fuzz", "^%s$" % unit["fuzz"],
+           "-fuzztime", tcfg.get("fuzztime", "60s"), "-test.fuzzcachedir", cache, "."]
+    rc, out, dt, timed_out = run_proc(cmd, ext, goenv(), tcfg.get("timeout", 900))
+    m = re.findall(r"execs: (\d+)", out)
+    execs = int(m[-1]) if m else 0
+    res.stats.append({"test": unit["fuzz"], "evaluations": execs, "labels": {"native-fuzz-execs": execs}, "nontrivial_hashes": [], "samples": []})
+    after = set(os.listdir(corpus)) if os.path.isdir(corpus) else set()
+    new = sorted(after - before)
+    if rc != 0 and new:
+        raw = open(os.path.join(corpus, new[0])).read()
+        mm = re.search(r'\[\]byte\((".*")\)', raw, re.S)
+        data = b""
+        if mm:
+            import ast
+            try:
+                data = ast.literal_eval("b" + mm.group(1))
+            except Exception:
+                data = b""
+        ff = {"property": pid, "test": unit["as_test"], "fingerprint": pid + "/native-fuzz-crasher", "msg": out[-1500:], "case": {"rawhex": data.hex(), "base": {"version": 1, "gs": 0, "sigs": [], "body": {}, "nanos": 0}, "muts": []}}
+        failf = os.path.join(work, "fuzz-failcase.json")
+        json.dump(ff, open(failf, "w"), indent=1)
+        res.violation = (failf, ff["fingerprint"], ff["msg"], out)
+        for n in new:  # the crasher is carried by the replay file; keep the module directory clean
+            os.remove(os.path.join(corpus, n))
+    elif timed_out:
+        res.undecided = "fuzz unit %s: time budget hit" % unit["fuzz"]
+    elif rc != 0:
+        res.undecided = "fuzz unit %s failed without a crasher:\n%s" % (unit["fuzz"], out[-2000:])
+    return res
+
+
 def run_unit(work, pid, uidx, unit, tier, base_seed, known_fps, replay=None):
+    if unit.get("kind") == "fuzz":
+        if replay:
+            return UnitResult()
+        return run_fuzz_unit(work, pid, uidx, unit, tier)
     module = unit.get("module", "node")
     binp = build_test_binary(work, module, unit["pkg"], unit.get("race", False))
     tcfg = unit[tier]
@@ -448,6 +505,8 @@ def check_property(pid, spec, tier, replay=None, keep=False):
                     # confirm by executing the shrunk case once outside rapid
                     # schedule-dependent properties get several attempts to reproduce the shrunk case
                     tries = unit.get("replay_tries", 1)
+                    if unit.get("kind") == "fuzz":
+                        unit = [u for u in spec["units"] if u["test"] == unit["as_test"]][0]
                     candidates = [failf] * tries
                     if tries > 1 and os.path.exists(failf + ".first"):
                         candidates += [failf + ".first"] * tries
